@@ -379,6 +379,17 @@ CHECKS = {
          "bounded explicit-state exploration where every transition is a "
          "real bytecode execution, with per-step runtime monitors",
          "4 C21/C22"),
+ "C29": ("exploration",
+         "Real ProcessSyncGroup objects over devices with DeviceVars of "
+         "every format (classes generated in an importable module) are "
+         "pickled into a real multiprocessing 'spawn' child exactly like "
+         "subprocess_run receives them; parent and child alternately write "
+         "distinct random values and read the other side's; the byte ranges "
+         "of all variables in the shared array must be pairwise disjoint.",
+         "the child runs a harness function instead of the cyclic loop; 16 "
+         "configurations per quick run (process spawn dominates the cost)",
+         "runtime monitoring across a real process boundary (value oracle + "
+         "layout invariant)", "4 C29"),
 }
 
 NOT_YET = "check not built yet in this round (design in DESIGN.md section 4)"
